@@ -488,6 +488,11 @@ CatalogFragment::CatalogFragment(DFS::Format format,
       }
     for (const auto& entry : entries())
       {
+	if (entry.file_length() == 0)
+	  {
+	    // A zero-length file occupies no sectors.
+	    continue;
+	  }
 	ParsedFileName file_name;
 	file_name.vol = vol;
 	file_name.dir = entry.directory();
